@@ -8,8 +8,10 @@
 (*      state machine terminates, consumes every line once, and registers        *)
 (*      exactly Meaning(file), in order; nothing of a comment reaches a body.    *)
 (*  (b) the layout law (mode "layout"): for every definition of a small set and   *)
-(*      every one of the 3*3*3*4*4*2 = 864 styles, Load(LayDef(d, style)) = <<d>>.*)
+(*      every one of the 6*3*4*4*4*2 = 2304 styles, Load(LayDef(d, style)) = <<d>>.*)
 (*  The documentation's own example file is checked as a fixed case.             *)
+(*  TrimAll = TRUE (the loader drops every trailing backslash of a continuation  *)
+(*  line, not only the mark) must violate InvDone / InvPrefix / InvLayout.       *)
 EXTENDS FuncFile
 
 CONSTANTS N, Mode       \* Mode: "lines" | "layout"
@@ -29,7 +31,15 @@ Alphabet == {
   <<92>>,                                 \* \
   <<32, 32, 101, 32, 102, 32, 32>>,       \*   e f   (indented, trailing blanks)
   <<107, 32, 92, 32, 32>>,                \* k \   (blanks after the backslash)
-  <<9, 109, 32, 35, 92>> }                \* <tab>m #\
+  <<9, 109, 32, 35, 92>>,                 \* <tab>m #\
+  \* lines ending in 2 and 3 backslashes (with trailing blanks / a comment), `\` right before `#`,
+  \* a continuation line that starts with backslashes
+  <<110, 32, 97, 92, 92>>,                \* n a\\        (body ends in a backslash, then the mark)
+  <<98, 92, 92, 92>>,                     \* b\\\
+  <<112, 32, 113, 92, 92, 32, 35, 32, 90>>, \* p q\\ # Z
+  <<114, 92, 35, 120>>,                   \* r\#x        (the comment starts at #: a continuation line)
+  <<92, 116, 123, 49, 125>>,              \* \t{1}       (starts with a backslash)
+  <<92, 92, 32, 32>> }                    \* \\ and trailing blanks
 
 RECURSIVE SeqsUpTo(_)
 SeqsUpTo(n) == IF n = 0 THEN {<<>>} ELSE LET P == SeqsUpTo(n - 1) IN P \cup {Append(s, a) : s \in {p \in P : Len(p) = n - 1}, a \in Alphabet}
@@ -40,8 +50,11 @@ LDefs == {
   [name |-> <<117, 50>>, body |-> <<123,107,125,45,123,105,102,32,123,48,125,32,123,49,125,32,123,50,125,125>>],     \* u2 {k}-{if {0} {1} {2}}
   [name |-> <<120>>, body |-> <<97>>],                                                                              \* x a
   [name |-> <<119>>, body |-> <<34,97,32,32,98,34,32,99>>],                                                         \* w "a  b" c
-  [name |-> <<118>>, body |-> <<97,92,110,32,123,48,125>>] }                                                        \* v a\n {0}
-Styles == {Style(a, b, cc, d, e, g) : a \in 0..2, b \in 0..2, cc \in 0..2, d \in 0..3, e \in 0..3, g \in BOOLEAN}
+  [name |-> <<118>>, body |-> <<97,92,110,32,123,48,125>>],                                                         \* v a\n {0}
+  [name |-> <<116>>, body |-> <<123,48,125,92,116,123,49,125>>],                                                     \* t {0}\t{1}
+  [name |-> <<98>>, body |-> <<97,92,92,98,92,123,32,92,92,92,110,99>>],                                            \* b a\\b\{ \\\nc
+  [name |-> <<99>>, body |-> <<92,92,92,92,120>>] }                                                                 \* c \\\\x  (starts with 4)
+Styles == {Style(a, b, cc, d, e, g) : a \in 0..5, b \in 0..2, cc \in 0..3, d \in 0..3, e \in 0..3, g \in BOOLEAN}
 
 VARIABLE mode     \* carries the layout case in mode "layout"
 vars == <<lvars, mode>>
@@ -65,5 +78,8 @@ InvDone == pc = "done" =>
   /\ Len(defs) + skipped = Len(Phrases(file))
   /\ (file = DocExample => defs = DocMeaning)
 InvLayout == (Mode = "layout" /\ pc = "done") => (InLayoutDomain(mode.d) /\ defs = <<mode.d>>)
+\* the line forms really end in 0, 1, 2, 3 backslashes after stripping (for the evidence: no vacuous alphabet)
+RunsSeen == {BslRun(StripLine(a)) : a \in Alphabet}
+InvRuns == {0, 1, 2, 3} \subseteq RunsSeen
 Terminates == <>(pc = "done")
 =============================================================================
